@@ -25,10 +25,8 @@ func (msg *MsgMoveAvailableVesting) Type() string {
 }
 
 func (msg *MsgMoveAvailableVesting) GetSigners() []sdk.AccAddress {
-	fromAddress, err := sdk.AccAddressFromBech32(msg.FromAddress)
-	if err != nil {
-		panic(err)
-	}
+	// no panic on a malformed address: x/authz and the ICA host ask a message for its signers before validating it
+	fromAddress, _ := sdk.AccAddressFromBech32(msg.FromAddress)
 	return []sdk.AccAddress{fromAddress}
 }
 
